@@ -5,6 +5,7 @@ Builder.build, decided by the three-valued reference matcher vlib.refcfg.  Small
 enumerated exhaustively (per side and for the provides x requires product of a reduced
 universe); larger ones are sampled.
 """
+import copy
 import itertools
 import random
 
@@ -181,6 +182,28 @@ def gen_cases(tier: str, rng: random.Random):
                       'psel': {'sts': rng.choice(psels), 'mts': rng.choice(psels)},
                       'rsel': {'sts': rng.choice(rsels), 'mts': rng.choice(rsels)},
                       'level': 'build', 'origin': rng.choice(['create', 'import'])})
+    # the two sides related: names of one side (or of an injected port) used on the other, the
+    # same selection written on both sides, the mirrored one
+    n_cross = 3000 if tier == 'quick' else 150000
+    for i in range(n_cross):
+        prov, req, inj = rng.choice(shapes)
+        sels = selections(prov + req + inj + ['zz'])
+        psel = {'sts': rng.choice(sels), 'mts': rng.choice(sels)}
+        union = prov + req
+        if union and i % 2:
+            # a selection that would be a proper assignment if the sides were one
+            some = sorted(rng.sample(union, rng.randint(1, len(union))))
+            rest = sorted(set(union) - set(some))
+            psel = {'sts': some, 'mts': rng.choice([rest or 'NONE', 'REMAINING', 'NONE'])}
+            if rng.random() < 0.5:
+                psel = {'sts': psel['mts'], 'mts': psel['sts']}
+        how = i % 3
+        rsel = copy.deepcopy(psel) if how == 0 else \
+            {'sts': psel['mts'], 'mts': psel['sts']} if how == 1 else \
+            {'sts': rng.choice(sels), 'mts': rng.choice(sels)}
+        cases.append({'provides': prov, 'requires': req, 'injected': inj, 'psel': psel,
+                      'rsel': rsel, 'level': 'build' if (i // 2) % 2 else 'match',
+                      'related': ['equal', 'mirrored', 'shared-universe'][how]})
     # beyond the small scope: 4-6 names per side
     n_big = 1000 if tier == 'quick' else 100000
     for _ in range(n_big):
